@@ -100,6 +100,20 @@ def serializeDER (r s : Nat) : List UInt8 :=
   [0x30, UInt8.ofNat (4 + cr.length + cs.length), 0x02, UInt8.ofNat cr.length] ++ cr ++
     [0x02, UInt8.ofNat cs.length] ++ cs
 
+/-- `ecdsa.VerifyLowS` on top of a strict parse result: accepted iff S ≤ n/2 -/
+def verifyLowS (parsed : Option (Nat × Nat)) : Bool :=
+  match parsed with
+  | some (_, s) => decide (s ≤ halfN)
+  | none => false
+
+/-- `musig2.PartialSignature.Decode`: the first 32 bytes, big endian, must be < n -/
+def decodePartialSig (b : List UInt8) : Option Nat :=
+  if b.length < 32 then none else
+  let s := fromBE (b.take 32)
+  if s ≥ n then none else some s
+
+def encodePartialSig (s : Nat) : List UInt8 := toBE 32 s
+
 /-! ### Schnorr signature (BIP340, 64 bytes) -/
 
 def parseSchnorrSig (sig : List UInt8) : Option (Nat × Nat) :=
